@@ -23,6 +23,7 @@ def run_jobs(modname, func, jobs, timeout=600, nproc=None, shims=(), env=None):
         os.makedirs(wd)
         outp = os.path.join(wd, "result.json")
         e = boot.child_env(env, shims)
+        e.update(job.get("env") or {})       # per-job environment (e.g. another PYTHONHASHSEED)
         e["VF_JOB"] = json.dumps(job)
         e["VF_OUT"] = outp
         try:
